@@ -25,6 +25,7 @@ func (db *DB) Backup(path string) error {
 		return err
 	}
 
+	verifYield(10)
 	db.mu.RLock()
 	var segments []*segment
 	activeSegmentSizes := make(map[uint16]int64)
@@ -42,6 +43,7 @@ func (db *DB) Backup(path string) error {
 	dstFS := fs.Sub(db.opts.rootFS, path)
 
 	for _, seg := range segments {
+		verifYield(11)
 		name := segmentName(seg.id, seg.sequenceID)
 		mode := os.FileMode(0640)
 		srcFile, err := srcFS.OpenFile(name, os.O_RDONLY, mode)
@@ -72,6 +74,7 @@ func (db *DB) Backup(path string) error {
 		}
 	}
 
+	verifYield(12)
 	if err := touchFile(dstFS, lockName); err != nil {
 		return err
 	}
